@@ -70,3 +70,17 @@ def domains_for(rng, W, nv, shared=False, maxdom=4):
         k = rng.randint(1, min(maxdom, n))
         doms.append(rng.sample(range(1, n + 1), k))
     return doms
+
+
+def value_equal_world(rng, nobj):
+    """Distinct objects several of which compare equal: their value fields are copies of one another (the object
+    references differ); the world asks for value equality on its objects."""
+    import copy
+    W = random_world(rng, nobj)
+    for k in range(1, nobj):
+        if rng.random() < 0.6:
+            src = W["objs"][rng.randrange(k)]["f"]
+            for name in ("n", "m", "s", "items", "t", "o", "d"):
+                W["objs"][k]["f"][name] = copy.deepcopy(src[name])
+    W["eq"] = "value"
+    return W
